@@ -212,15 +212,18 @@ pub fn run(ctx: &mut Ctx) {
             for &e in &extras {
                 for &nm in &names {
                     for &cm in &names {
-                        for hcrc in [false, true] {
-                            let gz = GzFields { text: false, mtime: 1, xfl: 0, os: 3, extra: e.map(|k| vec![7u8; k]), name: nm.map(|k| vec![b'n'; k]), comment: cm.map(|k| vec![b'c'; k]), hcrc };
+                        // the header-CRC request is a C int: every non-zero value counts
+                        for hcrc_val in [0i32, 1, -1, 2, i32::MIN] {
+                            let hcrc = hcrc_val != 0;
+                            let gz = GzFields { text: false, mtime: 1, xfl: 0, os: 3, extra: e.map(|k| vec![7u8; k]), name: nm.map(|k| vec![b'n'; k]), comment: cm.map(|k| vec![b'c'; k]), hcrc, hcrc_val };
                             let cfg = DCfg { level, strategy: 0, wbits: 15, mem_level: ml, wrap: Wrap::Gzip };
                             ctx.case(
                                 "bound-gzip-header",
-                                || format!("cfg[{}] gz header extra={e:?} name={nm:?} comment={cm:?} hcrc={hcrc} x n in {{0,1,100,1000}}", cfg.desc()),
+                                || format!("cfg[{}] gz header extra={e:?} name={nm:?} comment={cm:?} hcrc={hcrc_val} x n in 0..=40, 100, 1000 x {{incompressible, 9-bit literals}}", cfg.desc()),
                                 |c| {
-                                    for n in [0usize, 1, 100, 1000] {
-                                        one(c, &b, &cfg, &lcg_bytes(4, n), Some(&gz), None, &format!("n={n}"))?;
+                                    for n in (0usize..=40).chain([100, 1000]) {
+                                        one(c, &b, &cfg, &lcg_bytes(4, n), Some(&gz), None, &format!("n={n} lcg"))?;
+                                        one(c, &b, &cfg, &nine_bit(n), Some(&gz), None, &format!("n={n} ninebit"))?;
                                     }
                                     c.validated();
                                     Ok(())
